@@ -66,18 +66,31 @@ fn chk(run: &Run, key: &str, got: Result<f64, String>, want: f64, tol: f64, desc
 }
 
 fn moments(run: &Run, x: &[f64], tag: &str) {
-    let n = x.len();
-    let e = match exact(x) {
+    moments_p(run, x, tag, 0)
+}
+
+/// the data are `x0`·2^pow2 (an exact scaling: mean scales by 2^pow2, variances by 2^(2·pow2), and so do
+/// the rounding bounds); the exact oracle works on the unscaled values
+fn moments_p(run: &Run, x0: &[f64], tag: &str, pow2: i32) {
+    let n = x0.len();
+    let e0 = match exact(x0) {
         Some(e) => e,
         None => {
             run.skip("non-dyadic data");
             return;
         }
     };
+    let (s1, s2) = (2f64.powi(pow2), 2f64.powi(2 * pow2));
+    let e = Exact { mean: e0.mean * s1, var: e0.var * s2, svar: e0.svar * s2 };
+    let xs: Vec<f64> = x0.iter().map(|v| v * s1).collect();
+    let x: &[f64] = &xs;
+    if pow2 != 0 {
+        run.regime("scaled-data");
+    }
     run.case();
     let nf = n as f64;
     let meanabs = x.iter().map(|v| v.abs()).sum::<f64>() / nf;
-    let tiny = 1e-300;
+    let tiny = if pow2 < 0 { 0.0 } else { 1e-300 };
     let tol_mean = (nf + 2.0) * U * meanabs + tiny;
     // Welford / two-pass bound: 16 n u sqrt(var (var + mean²)) + 16 n u² mean²
     let tol_var = |v: f64| 16.0 * nf * U * (v * (v + e.mean * e.mean)).sqrt() + 16.0 * nf * U * U * e.mean * e.mean + tiny;
@@ -194,7 +207,7 @@ fn order(run: &Run, x: &[f64], tag: &str) {
 }
 
 pub fn run(run: &Run) {
-    run.rule("every data vector of length 1..=6 over {-2..2} × shifts {0,2^20,1e8,-1e8,2^40} × scales {1,3,-0.5}; every pair of vectors of length 2..=4 for the four covariance algorithms × shifts; structured vectors (constant, sorted, reversed, alternating, spike) of every length 1..=40 (80 thorough); every vector of length ≤6 over {-1,-0,+0,1} for order statistics; every increasing edge sequence of length 2..=6 from {0,1,2,3,5,8,13}; exact integer oracle; non-trivial = non-constant data");
+    run.rule("every data vector of length 1..=6 over {-2..2} × shifts {0,2^20,1e8,-1e8,2^40} × scales {1,3,-0.5} and exact power-of-two scalings 2^-200, 2^-30, 2^-27 (with mean 1), 2^100; the same slice passed as both covariance arguments; every pair of vectors of length 2..=4 for the four covariance algorithms × shifts; structured vectors (constant, sorted, reversed, alternating, spike) of every length 1..=40 (80 thorough); every vector of length ≤6 over {-1,-0,+0,1} for order statistics; every increasing edge sequence of length 2..=6 from {0,1,2,3,5,8,13}; exact integer oracle; non-trivial = non-constant data");
     let letters = [-2.0, -1.0, 0.0, 1.0, 2.0];
     let shifts = [0.0, 1048576.0, 1e8, -1e8, 1099511627776.0];
     let scales = [1.0, 3.0, -0.5];
@@ -207,6 +220,15 @@ pub fn run(run: &Run) {
                 for &sh in &shifts {
                     let x: Vec<f64> = base.iter().map(|v| v * sc + sh).collect();
                     moments(run, &x, "small");
+                    // the same data at microscopic and huge scales (spread far below / above 1)
+                    if sc == 1.0 && sh == 0.0 {
+                        for p2 in [-30, -200, 100] {
+                            moments_p(run, &x, "small, scaled", p2);
+                        }
+                        // mean 1, spread 2^-27: mean/sd of about 1e8 with a tiny absolute spread
+                        let xo: Vec<f64> = base.iter().map(|v| v + 134217728.0).collect();
+                        moments_p(run, &xo, "small, mean 1 spread 2^-27", -27);
+                    }
                     if nonconst {
                         run.nontrivial(1);
                     }
@@ -224,6 +246,13 @@ pub fn run(run: &Run) {
             let x: Vec<f64> = w[..n].iter().map(|&i| letters[i]).collect();
             let y: Vec<f64> = w[n..].iter().map(|&i| letters[i]).collect();
             covs(run, &x, &y, "pair");
+            if w[n..] == w[..n] {
+                // the very same slice as both arguments: the covariance of x with itself is its variance
+                covs(run, &x, &x, "same-slice");
+                let xs1: Vec<f64> = x.iter().map(|v| v + 1e8).collect();
+                covs(run, &xs1, &xs1, "same-slice+1e8");
+                run.regime("covariance-same-slice");
+            }
             let xs: Vec<f64> = x.iter().map(|v| v + 1e8).collect();
             covs(run, &xs, &y, "pair-x+1e8");
             let ys: Vec<f64> = y.iter().map(|v| v * 0.5 - 1e6).collect();
